@@ -407,7 +407,7 @@ def search(parts=("end_to_end", "broken", "absolute", "remote")):
         elif part == "broken":
             bad = broken_descriptions() or second_project_after_a_broken_one()
         elif part == "absolute":
-            bad = absolute_local_path()
+            bad = absolute_local_path() or relative_external_path_from_elsewhere()
         elif part == "declarations":
             bad, _ = external_entities_in_declarations()
         elif part == "same_names":
@@ -420,6 +420,38 @@ def search(parts=("end_to_end", "broken", "absolute", "remote")):
             return {"confirmed": True, "input": {"scenario": part, "A": EXT_A if part == "declarations" else A_FILES, "B": EXT_B if part == "declarations" else B_FILES}, "actual": bad[:6],
                     "expected": "links into A exist and name the entity; B's own entities win; a bad description costs only the links",
                     "how": "real FORD runs: A with externalize, then B with external: liba = <A's output>"}
+    return None
+
+
+def relative_external_path_from_elsewhere():
+    """`external: liba = ../A/doc` is relative to B's project file, wherever FORD is started"""
+    import pathlib, io, contextlib
+    ext = loader.import_repo("ford.external_project")
+    os.makedirs(realrun.TMPROOT, exist_ok=True)
+    sb = tempfile.mkdtemp(dir=realrun.TMPROOT)
+    cwd = os.getcwd()
+    try:
+        pa = realrun.build_project({"src/a.f90": "module amod\n  !! doc\n  integer :: av\nend module amod\n"})
+        os.makedirs(os.path.join(sb, "A", "doc"))
+        os.makedirs(os.path.join(sb, "B"))
+        os.makedirs(os.path.join(sb, "else", "where"))
+        with contextlib.redirect_stdout(io.StringIO()):
+            ext.dump_modules(pa, os.path.join(sb, "A", "doc"))
+        pb = realrun.build_project({"src/b.f90": "module bmod\n  use amod\nend module bmod\n"}, correlate=False)
+        pb.external = {"liba": "../A/doc"}
+        pb.settings.directory = pathlib.Path(sb, "B")
+        os.chdir(os.path.join(sb, "else", "where"))
+        out = io.StringIO()
+        with contextlib.redirect_stdout(out), contextlib.redirect_stderr(out):
+            ext.load_external_modules(pb)
+        names = sorted(m.name for m in pb.extModules if getattr(m, "name", None) == "amod")
+        if names != ["amod"]:
+            return [f"B (project file in <sandbox>/B, `external: liba = ../A/doc`), FORD started in <sandbox>/else/where: external modules loaded {names}, expected ['amod']; output: {out.getvalue()[-200:]}"]
+    except Exception as e:
+        return [f"{type(e).__name__}: {e}"]
+    finally:
+        os.chdir(cwd)
+        shutil.rmtree(sb, ignore_errors=True)
     return None
 
 
